@@ -359,7 +359,7 @@ fn cases(ctx: &Ctx, curve: &str) -> Vec<Case> {
     for (_, cfg) in crate::gen::corner_cfgs(32) {
         v.push(Case { curve: curve.into(), seed: r.u64(), cfg, kind: 0 });
     }
-    let n = ctx.n(60, 3000);
+    let n = ctx.n(200, 4000);
     for i in 0..n {
         let mut cfg = random_cfg(&mut r, if i % 6 == 0 { 64 } else { 12 });
         cfg.m = cfg.m.min(4);
